@@ -12,7 +12,7 @@ Written from the property text and ISO C translation phases 2–3 (not from the 
                  character, each with its counted lines and whether its first surviving
                  non-white character is `#` (a directive).
 
-Well-formedness (`wf`) and the recorded finding classes (`k1`, `k2`, `k3`) are computed by
+Well-formedness (`wf`) and the recorded finding classes (`k1`, `k2`) are computed by
 the same scanner.  Nothing here imports the model of the code; only the notion of a
 physical line (`CText.rawLines`) is shared. -/
 namespace CbiVerif.CLexRef
@@ -240,13 +240,19 @@ def firstNonWhite (seg : List Surv) : Option Char :=
   | some (.ch c _ _) => some c
   | _ => none
 
-def isDirective (seg : List Surv) : Bool := firstNonWhite seg == some '#'
+/-- the first surviving non-white character of the logical line is `#` -/
+def startsHash (seg : List Surv) : Bool := firstNonWhite seg == some '#'
 
-/-- F-C05-3: the logical line starts with `##` -/
+/-- the logical line starts with the two characters `##` (adjacent after splicing; a comment between
+    them would survive as a space): its first token is the operator `##`, not `#` -/
 def startsHashHash (seg : List Surv) : Bool :=
   match seg.dropWhile Surv.isWhite with
   | .ch '#' _ _ :: .ch '#' _ _ :: _ => true
   | _ => false
+
+/-- "a logical line whose first token is `#` is a directive": the only other preprocessing token
+    that starts with `#` is `##` -/
+def isDirective (seg : List Surv) : Bool := startsHash seg && !startsHashHash seg
 
 /-- logical lines holding code: (is a directive, counted physical lines) -/
 def logicalOf (cnt : Nat) (out : List Surv) : List (Bool × List Nat) :=
@@ -266,7 +272,6 @@ structure Result where
   wf : Bool
   k1 : Bool
   k2 : Bool
-  k3 : Bool
   counted : List Nat
   logical : List (Bool × List Nat)
   nodes : List (Bool × List Nat)
@@ -274,11 +279,11 @@ deriving Repr
 
 def resultLines (ls : List RawLine) : Result :=
   match scanLines ls with
-  | none => ⟨false, false, false, false, [], [], []⟩
+  | none => ⟨false, false, false, [], [], []⟩
   | some s =>
     let cnt := ls.length
     let lg := logicalOf cnt s.out
-    ⟨wfLines ls, s.k1, k2Of cnt s.out, (segments s.out []).any startsHashHash,
+    ⟨wfLines ls, s.k1, k2Of cnt s.out,
       linesOf cnt s.out, lg, nodesOf none lg⟩
 
 def result (t : List Char) : Result := resultLines (rawLines t)
@@ -286,7 +291,6 @@ def result (t : List Char) : Result := resultLines (rawLines t)
 def wf (t : List Char) : Bool := wfLines (rawLines t)
 def k1 (t : List Char) : Bool := (result t).k1
 def k2 (t : List Char) : Bool := (result t).k2
-def k3 (t : List Char) : Bool := (result t).k3
 def countedLines (t : List Char) : List Nat := (result t).counted
 def logical (t : List Char) : List (Bool × List Nat) := (result t).logical
 def nodes (t : List Char) : List (Bool × List Nat) := (result t).nodes
